@@ -9,3 +9,8 @@ import PysersicModel.IO.Names
 import PysersicModel.IO.Results
 import PysersicModel.Prob.Dist
 import PysersicModel.Prob.Loss
+import PysersicModel.Render.Kernels
+import PysersicModel.Render.Fourier
+import PysersicModel.Render.Decomp
+import PysersicModel.Render.Renderers
+import PysersicModel.Render.Tab
